@@ -402,7 +402,7 @@ def rng_for(seed, *parts):
 
 
 NAME_STEMS = ["a", "main", "unit", "motor", "part", "lib", "my prog", "café", "v1.2", "x-y_z", "UPPER", "MiXed",
-              "n" * 40, "über", "st", "1"]
+              "n" * 40, "über", "st", "1", "valve,v2", "a,b", "x;y", "q=1&r", "{tmp}", "-dash", "#hash"]
 
 
 def file_names(rng, n, ext=".st", twins=0.5):
